@@ -126,6 +126,10 @@ func Main(prop, level string, body func(r *Run)) {
 	for i := range r.shards {
 		r.shards[i].m = map[uint64]struct{}{}
 	}
+	if isWorker() {
+		body(r)
+		os.Exit(0)
+	}
 	r.loadKnown()
 	body(r)
 	r.finish()
@@ -160,7 +164,17 @@ func (r *Run) Note(s string) {
 }
 
 // Eval counts n evaluated cases.
-func (r *Run) Eval(n int) { atomic.AddInt64(&r.evals, int64(n)) }
+func (r *Run) Eval(n int) {
+	if isWorker() {
+		if worker != nil {
+			worker.mu.Lock()
+			worker.d.Evals += int64(n)
+			worker.mu.Unlock()
+		}
+		return
+	}
+	atomic.AddInt64(&r.evals, int64(n))
+}
 
 // Evals returns the number of evaluations so far.
 func (r *Run) Evals() int64 { return atomic.LoadInt64(&r.evals) }
@@ -175,6 +189,14 @@ func (r *Run) Nontrivial(fp string) {
 
 // NontrivialHash is Nontrivial for a pre-hashed fingerprint.
 func (r *Run) NontrivialHash(v uint64) {
+	if isWorker() {
+		if worker != nil {
+			worker.mu.Lock()
+			worker.d.Hashes = append(worker.d.Hashes, v)
+			worker.mu.Unlock()
+		}
+		return
+	}
 	s := &r.shards[v%64]
 	s.mu.Lock()
 	s.m[v] = struct{}{}
@@ -202,7 +224,20 @@ func (r *Run) Counter(name string) *int64 {
 }
 
 // Add adds n to a named counter.
-func (r *Run) Add(name string, n int64) { atomic.AddInt64(r.Counter(name), n) }
+func (r *Run) Add(name string, n int64) {
+	if isWorker() {
+		if worker != nil {
+			worker.mu.Lock()
+			if worker.d.Counters == nil {
+				worker.d.Counters = map[string]int64{}
+			}
+			worker.d.Counters[name] += n
+			worker.mu.Unlock()
+		}
+		return
+	}
+	atomic.AddInt64(r.Counter(name), n)
+}
 
 // Set stores an extra coverage key.
 func (r *Run) Set(key string, v interface{}) {
@@ -213,6 +248,17 @@ func (r *Run) Set(key string, v interface{}) {
 
 // Sample keeps v as one of the written-out cases (the first few are kept).
 func (r *Run) Sample(v interface{}) {
+	if isWorker() {
+		if worker != nil {
+			if raw, err := json.Marshal(v); err == nil {
+				worker.mu.Lock()
+				worker.d.Samples = append(worker.d.Samples, raw)
+				worker.mu.Unlock()
+				atomic.AddInt64(&workerSamples, 1)
+			}
+		}
+		return
+	}
 	r.mu.Lock()
 	if len(r.samples) < r.maxSamples {
 		r.samples = append(r.samples, v)
@@ -223,6 +269,9 @@ func (r *Run) Sample(v interface{}) {
 // WantSample reports whether more samples are still wanted (cheap test to
 // avoid building a sample value for every case).
 func (r *Run) WantSample() bool {
+	if isWorker() {
+		return worker != nil && atomic.LoadInt64(&workerSamples) < 2
+	}
 	r.mu.Lock()
 	defer r.mu.Unlock()
 	return len(r.samples) < r.maxSamples
@@ -234,6 +283,14 @@ func (r *Run) TimeUp() bool { return time.Now().After(r.deadline) }
 
 // Capped marks the run as not exhaustive with a reason.
 func (r *Run) Capped(why string) {
+	if isWorker() {
+		if worker != nil {
+			worker.mu.Lock()
+			worker.d.Capped = append(worker.d.Capped, why)
+			worker.mu.Unlock()
+		}
+		return
+	}
 	r.mu.Lock()
 	r.capped = true
 	r.notes = append(r.notes, "capped: "+why)
@@ -293,6 +350,8 @@ func (r *Run) loadKnown() {
 // Violations returns the number of (unlisted) violations so far.
 func (r *Run) Violations() int64 { return atomic.LoadInt64(&r.nviol) }
 
+var workerSamples int64
+
 var unsafeChars = regexp.MustCompile(`[^A-Za-z0-9_.=-]+`)
 
 // Violation reports a failing case. key identifies the failing input / class
@@ -301,6 +360,12 @@ var unsafeChars = regexp.MustCompile(`[^A-Za-z0-9_.=-]+`)
 // If key is a listed known finding the case is counted as such and no
 // violation is raised.
 func (r *Run) Violation(key, what string, replay interface{}) {
+	if isWorker() {
+		if worker != nil {
+			r.workerViolation(key, what, replay)
+		}
+		return
+	}
 	r.mu.Lock()
 	defer r.mu.Unlock()
 	for _, f := range r.known {
